@@ -646,6 +646,12 @@ func (x *Exec) evalCall(env *SpecEnv, e *spec.Call) SVal {
 		return SVal{T: smt.Eq(v.T, nilOf(v.T.Sort))}
 	case "allocated":
 		return SVal{T: smt.Select(x.entryAlloc(), arg(0).T)}
+	case "spawned":
+		// spawned(f): how many `go f(...)` statements this activation has executed (ghost counter kept by the executor)
+		name := e.Args[0].String()
+		h := "GV$spawn$" + name
+		E.HeapSorts[h] = smt.Int
+		return SVal{T: env.heap(h)}
 	case "live":
 		// live(r), in a callee's postcondition: r exists when the call returns (it is added to the allocation set by
 		// the caller, so objects allocated later are different from it). As a formula it is just true.
